@@ -499,7 +499,10 @@ REJECTED_PROGRAMS = (
     ("def 0 { a(); } def 1 { jump @gone; §here; b(); }", "jump to a label that does not exist"),
     ("def 0 { switch ($S) { case 1: } }", "switch ends in a case without block"),
     ("def 0 { switch ($S) { case 1: a(); break; case 2: } }", "switch ends in a case without block"),
+    ("def 0 { switch ($S) { default: a(); break; case 2: } }", "switch ends in a case without block (after a default that has one)"),
+    ("def 0 { switch ($S) { case 1: a(); break; default: b(); break; case 2: case 3: } }", "switch ends in cases without block"),
     ("def 0 { switch ($S) { default: a(); break; default: b(); } }", "two defaults"),
+    ("def 0 { switch ($S) { default: default: b(); } }", "two defaults"),
     ("def 0 { message_SwitchTalk ($S) { case 1: a(); } }", "statements inside a message switch"),
     ("def 0 { message_SwitchMonologue ($S) { case 1: 'x' default: b(); } }", "statements inside a message switch"),
     ("def 0 { switch ($S) { case 1: 'text' } }", "a string instead of statements in an ordinary switch"),
